@@ -87,10 +87,13 @@ def memo(fn):
 
     def g(idx):
         k = _key(idx)
-        if k in cache:
-            return cache[k]
+        hit = cache.get(k)
+        if hit is not None:
+            return hit[1]
         v = fn(idx)
-        cache[k] = v
+        # keep the index expressions alive: z3 AST ids are reused after garbage collection,
+        # so a cache keyed by get_id() must own its keys
+        cache[k] = (list(idx), v)
         return v
 
     return g
@@ -870,7 +873,40 @@ class Selection:
         self.rank = z3.Function(nm + "_rank", *([z3.IntSort()] * self.m + [z3.IntSort()]))
         self._sel_inst = {}
         self._rank_inst = {}
-        sink().add(self.N >= 0)
+        s = sink()
+        s.add(self.N >= 0)
+        gh = getattr(ctx.cur(), "ghosts", None)
+        if gh is not None:
+            gh.setdefault("selections", []).append(self)
+        if self.m == 1:
+            # 1-D masks: rank is the prefix count of True cells (torch.where / boolean-mask
+            # indexing enumerate True cells in increasing index order), N the total count.
+            a = z3.Int(fresh_name("qa"))
+            ma = to_bool(self.mreader([a]))
+            s.add(self.rank(z3.IntVal(0)) == 0)
+            s.add(z3.ForAll([a], zbool(b_implies(b_and(a >= 0, i_lt(a, self.shape[0])),
+                                                 self.rank(a + 1) == self.rank(a) + zint(zbool(ma)))),
+                            patterns=[self.rank(a + 1)]))
+            s.add(self.N == self.rank(zint(self.shape[0])))
+            s.add(z3.ForAll([a], zbool(b_implies(b_and(a >= 0, i_le(a, self.shape[0])), b_and(self.rank(a) >= 0, self.rank(a) <= self.N))),
+                            patterns=[self.rank(a)]))
+        # quantified form of the selection contract (needed when sel/rank terms arise from
+        # instantiating other quantified facts); the lazily instantiated copies below cover
+        # the ground terms without relying on E-matching.
+        r = z3.Int(fresh_name("qr"))
+        r2 = z3.Int(fresh_name("qr"))
+        ridx = [f(r) for f in self.sel]
+        ridx2 = [f(r2) for f in self.sel]
+        s.add(z3.ForAll([r], zbool(b_implies(b_and(r >= 0, r < self.N),
+                                             b_and(self.in_range(ridx), to_bool(self.mreader(ridx)), self.rank(*ridx) == r))),
+                        patterns=[z3.MultiPattern(*ridx)] if len(ridx) > 1 else [ridx[0]]))
+        s.add(z3.ForAll([r, r2], zbool(b_implies(b_and(r >= 0, r < r2, r2 < self.N), lex_lt(ridx, ridx2))),
+                        patterns=[z3.MultiPattern(ridx[0], ridx2[0])]))
+        qi = [z3.Int(fresh_name("qi")) for _ in range(self.m)]
+        rk = self.rank(*qi)
+        s.add(z3.ForAll(qi, zbool(b_implies(b_and(self.in_range(qi), to_bool(self.mreader(qi))),
+                                            b_and(rk >= 0, rk < self.N, *[f(rk) == i for f, i in zip(self.sel, qi)]))),
+                        patterns=[rk]))
 
     def _semi_concrete(self, cells, vals):
         """Concrete shape, symbolic truth values: complete quantifier-free definition."""
@@ -891,6 +927,11 @@ class Selection:
         s.add(self.N == zint(cnt))
         s.add(self.N >= 0)
         s.add(self.N <= len(cells))
+        if self.m == 1:
+            s.add(self.rank(z3.IntVal(len(cells))) == self.N)
+        gh = getattr(ctx.cur(), "ghosts", None)
+        if gh is not None:
+            gh.setdefault("selections", []).append(self)
 
     def in_range(self, idx):
         return b_and(*[b_and(i_le(0, i), i_lt(i, d)) for i, d in zip(idx, self.shape)])
